@@ -74,15 +74,18 @@ extern "C" void harness(void)
 {
   BA::Aut<NA> A; A.draw(AFREE, AFIN);
   BA::Aut<NB> B; B.draw(BFREE, BFIN);
+  bool kfShape = false;      // the input has the shape of known finding C07-1 (see below)
 #if ENC == 0 && ALG == 0 && (defined(KF_EXCLUDE_BU_UP_RANK2) || defined(KF_EXPECT_BU_UP_RANK2))
   // known finding (open): the bottom-up upward algorithm (src/tree_incl_up.hh) joins the macro-states known for a child
-  // instead of choosing one per position, which is wrong as soon as the smaller automaton has a rule of rank >= 2.
-  // EXCLUDE: verify the rest of the space (no such rule present); EXPECT: only that shape, the violation must show up again.
+  // instead of choosing one per position; as soon as the smaller automaton has a rule of rank >= 2 it may answer
+  // "included" for a pair that is not included.  EXCLUDE: exactly that failure (rule of rank >= 2 in A, verdict true, oracle
+  // false) is not reported; everything else - including a wrong "not included" on such inputs - still is.  EXPECT: only that
+  // shape is explored and the violation must show up again.
   { bool rank2 = false; for (unsigned i = 0; i < BA::Aut<NA>::NR; ++i) if (U::Univ<NA>::rule(i).rank >= 2) rank2 = rank2 | A.pres[i];
 #ifdef KF_EXPECT_BU_UP_RANK2
     vs_assume(rank2);
 #else
-    vs_assume(!rank2);
+    kfShape = rank2;
 #endif
   }
 #endif
@@ -132,7 +135,7 @@ extern "C" void harness(void)
   (void)states;
   bool verdict = AutT::CheckInclusion(smaller, bigger, ip);
 #if IMPLEMENTED
-  CHECK(verdict == expect, 1);
+  CHECK(verdict == expect || (kfShape && verdict && !expect), 1);
 #else
   // A selection that is not implemented TODAY must end in an exception (any type: vs_allow_throw ends the path silently)
   // and is then never here.  WHICH selections are unimplemented is a fact about the current sources (the table above), not
